@@ -440,7 +440,7 @@ Proof.
   - destruct (str_eqb n_cs_client (lower n)) eqn:En; [|exact Hop2]. apply str_eqb_eq in En.
     destruct Y as [->|Y]; [rewrite <- En in Hl; rewrite Hl in H02; exact H02|].
     unfold Model.Vars.validate in Y. rewrite <- En in Y. cbn [charset_var str_eqb n_time_zone n_cs_client n_cs_connection n_cs_results N.eqb Pos.eqb andb orb] in Y.
-    destruct y; try discriminate. apply andb_true_iff in Y. exact (proj1 Y).
+    destruct y; try discriminate. exact Y.
   - destruct (str_eqb n_cs_results (lower n)) eqn:En; [|exact Hop3]. apply str_eqb_eq in En.
     destruct Y as [->|Y]; [rewrite <- En in Hl; rewrite Hl in H03; exact H03|].
     unfold Model.Vars.validate in Y. rewrite <- En in Y. cbn [charset_var str_eqb n_time_zone n_cs_client n_cs_connection n_cs_results N.eqb Pos.eqb andb orb] in Y.
